@@ -1,10 +1,7 @@
 // ===== spec/ipa_spec.rs : inner-product-argument verifier relation (shared by check and batch_check units) =====
 // ======================= specification =======================
 pub uninterp spec fn ro_chal(bytes: Seq<u8>) -> FS;     // compute_random_oracle_challenge: hash-to-field of the byte string (random oracle)
-// succinct check polynomial h(X) = prod_{i=1..k} (1 + u_i X^(2^(k-i)))
-pub open spec fn scp_eval(u: Seq<FS>, z: FS, j: nat) -> FS decreases j {
-    if j == 0 { f_one() } else { f_mul(scp_eval(u, z, (j - 1) as nat), f_add(f_one(), f_mul(f_pow(z, vstd::arithmetic::power2::pow2((u.len() - j) as nat)), u[j - 1]))) }
-}
+// scp_eval / scp_coeffs (the succinct check polynomial and its expansion): spec/scp_spec.rs
 // accumulation over the commitments: challenges xi_0, xi_1, ... squeezed one after the other (two per polynomial)
 pub open spec fn ipa_acc_v(cs: Seq<&LabeledCommitment<Commitment>>, vs: Seq<Fr>, z: FS, d: nat, s: SS, k: nat) -> FS decreases k {
     if k == 0 { f_zero() } else { let j = (k - 1) as nat; let a = f_add(ipa_acc_v(cs, vs, z, d, s, j), f_mul(sp_chal(s, 2 * j), vs[j as int]@));
